@@ -16,12 +16,12 @@ class Parked:
     """`steps_at_park`: the calls the parked process has really run (its own trace).  strace counts `when=` per *thread*, and
     the Go runtime may move the main goroutine to another thread between two calls, so the process can stop later than the
     addressed call (never earlier): every judgement about "where A is" has to use `steps_at_park`, not the address."""
-    def __init__(self, store, argv, stdin, point, env=None, binary=None):
+    def __init__(self, store, argv, stdin, point, env=None, binary=None, calls=None):
         """start `argv`; it stops right after the given (syscall, n-th occurrence) returns"""
         self.out = tempfile.NamedTemporaryFile(prefix="ergo-park-", delete=False); self.out.close()
         self.so = tempfile.TemporaryFile(); self.se = tempfile.TemporaryFile()
         inj = ["-e", "inject=%s:signal=SIGSTOP:when=%d" % point]
-        cmd = strace._cmd(store, argv, ["-o", self.out.name] + inj, binary)
+        cmd = strace._cmd(store, argv, ["-o", self.out.name] + inj, binary, calls)
         e = dict(os.environ)
         if env:
             e.update(env)
